@@ -1599,7 +1599,11 @@ func (t *Topic) thisUserSub(sess *Session, pkt *ClientComMessage, asUid types.Ui
 				// User wants default access mode.
 				userData.modeWant = t.accessFor(asLvl)
 			} else {
-				userData.modeWant = modeWant
+				// A new subscriber cannot request ownership: the owner flag left in modeWant would
+				// make the user a second owner as soon as the owner grants 'O', skipping the transfer
+				// procedure (the previous owner keeps 'O'). Ownership is accepted by an explicit
+				// update of an existing subscription.
+				userData.modeWant = modeWant & ^types.ModeOwner
 			}
 		}
 
@@ -1725,6 +1729,11 @@ func (t *Topic) thisUserSub(sess *Session, pkt *ClientComMessage, asUid types.Ui
 			if !oldWant.IsJoiner() {
 				// Set permissions NO WORSE than default, but possibly better (admin or owner banned himself).
 				userData.modeWant = userData.modeGiven | t.accessFor(asLvl)
+				if t.owner != asUid {
+					// Ownership offered in the meantime must be accepted explicitly (see ownerChange below),
+					// otherwise the topic ends up with two owners.
+					userData.modeWant &= ^types.ModeOwner
+				}
 			}
 		} else if userData.modeWant != modeWant {
 			// The user has provided a new modeWant and it' different from the one before
